@@ -2,6 +2,8 @@ package main
 
 import (
 	"fmt"
+	"regexp"
+	"sort"
 	"go/token"
 	"go/types"
 	"strings"
@@ -9,19 +11,49 @@ import (
 	"golang.org/x/tools/go/ssa"
 )
 
+var kthLocalRe = regexp.MustCompile(`^(\w+?)__([0-9]+)$`)
+
 // cellsByName resolves a local variable name to its current value (top frame).
 func (fv *FV) cellLookup(st *State) func(string) (Term, bool) {
 	root := st.frameRoot()
 	return func(name string) (Term, bool) {
 		// special: ridx = completed iterations of the innermost range-index loop containing the current block
 		var best *ssa.Alloc
-		for id := range st.cells {
-			if id.Frame != 0 {
-				continue
+		base, kth := name, 0
+		if m := kthLocalRe.FindStringSubmatch(name); m != nil {
+			// name__K: the K-th local of that name in source order (several locals may share a name)
+			base = m[1]
+			fmt.Sscanf(m[2], "%d", &kth)
+		}
+		if kth > 0 {
+			var all []*ssa.Alloc
+			for _, b := range fv.fn.Blocks {
+				for _, in := range b.Instrs {
+					if a, ok := in.(*ssa.Alloc); ok && a.Comment == base {
+						all = append(all, a)
+					}
+				}
 			}
-			if a, ok := id.A.(*ssa.Alloc); ok && a.Comment == name {
-				if best == nil || a.Pos() < best.Pos() {
+			sort.Slice(all, func(i, j int) bool { return all[i].Pos() < all[j].Pos() })
+			if kth <= len(all) {
+				a := all[kth-1]
+				if _, ok := st.cells[CellID{Frame: 0, A: a}]; ok {
 					best = a
+				} else if !fv.isHeapObject(a) {
+					// declared inside a loop body that has not run yet on this path: zero value
+					el := a.Type().(*types.Pointer).Elem()
+					return fv.zero(el), true
+				}
+			}
+		} else {
+			for id := range st.cells {
+				if id.Frame != 0 {
+					continue
+				}
+				if a, ok := id.A.(*ssa.Alloc); ok && a.Comment == name {
+					if best == nil || a.Pos() < best.Pos() {
+						best = a
+					}
 				}
 			}
 		}
@@ -261,6 +293,10 @@ func (fv *FV) havocLoop(st *State, li *LoopInfo) {
 		switch a := c.(type) {
 		case *ssa.Alloc:
 			id := CellID{Frame: 0, A: a}
+			if _, exists := st.cells[id]; !exists && !fv.isHeapObject(a) {
+				// a local declared inside the loop body: arbitrary at the loop head
+				st.cells[id] = tv(fv.zero(a.Type().(*types.Pointer).Elem()))
+			}
 			if old, ok := st.cells[id]; ok && old.K == VTerm {
 				el := a.Type().(*types.Pointer).Elem()
 				nv := fv.freshConst(st, "h_"+a.Comment, old.T.Sort, el)
